@@ -7,6 +7,9 @@ import sys
 from .common import VERIF, Timer, jdump, jsonable, seed, sha
 
 KNOWN = os.path.join(VERIF, 'known_findings.json')
+# Detection demonstrations against a scratch copy (DV_REPO) must not overwrite the evidence and
+# replays of the registered checks: DV_OUT redirects both.
+OUT = os.environ.get('DV_OUT') or VERIF
 EVID_SCHEMA = '/root/.vp/EVIDENCE.schema.json'
 
 LEVEL_KEYS = {
@@ -63,8 +66,8 @@ class Reporter:
             rec.update(property=self.prop, engine=self.engine, tier=self.tier,
                        seed=seed(), signature=signature, what=what)
             rd = sha(jdump(rec))[:10]
-            os.makedirs(os.path.join(VERIF, 'replays'), exist_ok=True)
-            path = os.path.join(VERIF, 'replays', f'{self.prop}-{rd}.json')
+            os.makedirs(os.path.join(OUT, 'replays'), exist_ok=True)
+            path = os.path.join(OUT, 'replays', f'{self.prop}-{rd}.json')
             with open(path, 'w') as f:
                 json.dump(rec, f, indent=1, sort_keys=True, default=jsonable)
             ent[3].append(path)
@@ -107,8 +110,8 @@ class Reporter:
 
 
 def write_evidence(prop, ev):
-    os.makedirs(os.path.join(VERIF, 'evidence'), exist_ok=True)
-    path = os.path.join(VERIF, 'evidence', f'{prop}.json')
+    os.makedirs(os.path.join(OUT, 'evidence'), exist_ok=True)
+    path = os.path.join(OUT, 'evidence', f'{prop}.json')
     problems = check_evidence(ev)
     if problems:
         raise HarnessError(f'evidence for {prop} would be invalid: {problems}')
